@@ -18,9 +18,20 @@ Sub-checks
           the same chain by steps that collect ([..]), bucket ({key: ..}) or aggregate (Sum / Max / Min / Count) over
           the items of the ENCLOSING Group, at top level / below a bucket / as a list element; below an aggregator
           the later Sum() is a plain fold
+  grouplevel   the same check and model as groupchain, other chains: a LEVEL of the Group spec - {key: ..} bucketing,
+          Limit(n, ..), [..] collecting - that is not the last step of its chain but is followed (directly or after len /
+          a snapshot / Fill(T) / Auto(T)) by steps that collect, bucket or aggregate, in a Pipe or as key and value of a
+          Switch case; over the rows, their 'n', or - inside a nested Group - the ints of their 'vals' (F104): the later
+          step is fed once per item of the enclosing Group, not once per item of the bucket the level sorted the item into
+  lazywrap   a mode wrapper whose RESULT contains Iter pipelines (Iter(sub).map(..).filter(..).takewhile(..).unique(..)):
+          Group(IT), Group([IT]), Group(Pipe(IT, T)), below a bucket / a Limit, Auto([IT]), Fill((IT, 'lit')),
+          Match(Switch([(list, IT)])), ... - with and without an enclosing Group - consumed by a LATER chain step, by a later
+          step of the enclosing Group's chain, or by the caller after glom() returned (F97): the sub-specs are nested inside
+          the wrapper and are read in its mode (callable: called / predicate; 'a': lookup / literal / == / BadSpec; tuple:
+          chain / rebuilt / pattern / BadSpec) whenever they run
 
 Oracle: ev() - the mode of a probe is that of its innermost syntactically enclosing wrapper; RefBuilder;
-GroupRun - a hand-written loop with one accumulator per collecting node and bucket path.
+GroupRun - a hand-written loop with one accumulator per collecting node and bucket path; lz_ref - plain generators.
 """
 from hypothesis import strategies as st
 
@@ -32,7 +43,9 @@ from glom import grouping as gg
 from glom.grouping import Group
 from glom.reduction import Count
 
-from ..runner import Sub, Mismatch
+import copy
+
+from ..runner import Sub, Mismatch, HarnessBug
 from .. import targets as tg
 
 PROPERTY = 'C08'
@@ -42,7 +55,12 @@ RULE = ('modes: node trees of depth <= 4 over {probe str, probe dict, T, wrapper
         'of depth <= 3 over {[..], {key: ..}, Sum/Max/Min/Count, Sum(sub-spec), Pipe, Switch, T steps, callables, wrapper steps '
         '(15 fixed Auto/Fill/Match wrappers, nested Group of a generated spec)}. Non-trivial = a wrapper followed by a probe at '
         'the same chain level, or nested wrappers of >= 2 different modes, or a cyclic literal, or a mode-dependent leaf in a '
-        'literal, or (groupchain) a wrapper followed in its chain by an accumulating step with >= 2 rows.')
+        'literal, or (groupchain, grouplevel) a wrapper or a level ({..}, Limit, [..]) followed in its chain by an accumulating step '
+        'with >= 2 rows. grouplevel: 1-5 rows x {dict level, Limit(1|2|3|5, sub), list level} x {Pipe with 0-1 steps in between, '
+        'Switch key/value} x items {row, n, ints in a nested Group} x {top, bucket, list}. lazywrap: 16 (mode, form) placements '
+        'x Iter sub-spec (10) x 0-3 stages over {map, filter, takewhile, unique} x {no enclosing Group, 3 enclosing forms} x '
+        'consumer {tuple step, Pipe step, caller} x 1-2 targets of 0-4 rows of 0-4 ints; non-trivial = at least one sub-spec '
+        'was evaluated after the wrapper had returned.')
 ASSUMPTIONS = [
     'per-mode readings: Auto: string = path lookup, tuple = chain, dict = restructuring; Fill: containers rebuilt, strings literal; '
     'Match: == / positional tuple / dict pattern; Group: a bare string or a dict with string keys is a BadSpec',
@@ -52,8 +70,15 @@ ASSUMPTIONS = [
     'under an outer Match / Group a Spec(\'name\') leaf therefore fails with MatchError / BadSpec; the default of Match(p, default=d) is '
     'an argument of Match, not part of the pattern',
     'groupchain: a tuple is a BadSpec in Group mode, so chains are Pipes, Switch cases and aggregator sub-specs; in a Pipe only the last '
-    'step collects / buckets / aggregates (what a step finds after a plain - non-wrapper - accumulating step is outside the statement); '
-    'First() only as the whole spec of a nested Group; nested Groups get non-empty lists of ints',
+    'step collects / buckets / aggregates; First() only as the whole spec of a nested Group; nested Groups get non-empty lists of ints',
+    'grouplevel: a {..} / Limit / [..] level returns the accumulator it keeps (the same object for every item), and the steps after it '
+    'belong to the enclosing Group: one accumulator per node, fed once per item; a Limit that is used up answers STOP, which ends the '
+    'Pipe it is a step of with the value the Pipe has at that point (core.STOP: "halt ... execution of a tuple of subspecs"); Limit is '
+    'generated as a Pipe step only. What a step finds after an AGGREGATOR step (Sum(), Count() .. followed by another accumulating '
+    'step in one Pipe) is not generated',
+    'lazywrap: filter / takewhile / unique keys are callables and T expressions in Auto / Fill / Group mode and T expressions / Auto(..) '
+    'in Match mode (a callable key read as a pattern is outside what Iter documents); sub-specs whose value is no int, or which fail, '
+    'stand last in the pipeline; lazily evaluated sub-specs that ACCUMULATE ([..], Sum() as Iter sub-spec in Group mode) are not generated',
 ]
 
 
@@ -682,8 +707,18 @@ def inc(x):
     return x + 1
 
 
+def snap(x):
+    """a deep copy: what a level's accumulator held at the moment the step saw it"""
+    return copy.deepcopy(x)
+
+
 def _same(k):
     return k
+
+
+def _accepts(accepted, kind):
+    """'acc' = the accumulator a {..} / [..] / Limit level returns (a dict or a list): sized, and else like 'other'"""
+    return kind in accepted or (kind == 'acc' and 'other' in accepted)
 
 
 def _const(k):
@@ -718,7 +753,8 @@ PLAINSTEPS = {
     't-vals': (lambda: T['vals'],  lambda x: x['vals'],  ('row',), _const('ints')),
     't-n':    (lambda: T['n'],     lambda x: x['n'],     ('row',), _const('num')),
     't-mod2': (lambda: T % 2,      lambda x: x % 2,      ('num',), _const('num')),
-    'fn-len': (lambda: len,        lambda x: len(x),     ('row', 'ints'), _const('num')),
+    'fn-len': (lambda: len,        lambda x: len(x),     ('row', 'ints', 'acc'), _const('num')),
+    'fn-snap': (lambda: snap,      lambda x: snap(x),    ('acc',), _same),
     'fn-inc': (lambda: inc,        lambda x: x + 1,      ('num',), _const('num')),
     'fn-sum': (lambda: sum,        lambda x: sum(x),     ('ints',), _const('num')),
 }
@@ -729,17 +765,28 @@ AGGS = {   # name -> (build, initial accumulator, step)
     'count': (lambda: Count(), lambda: 0,    lambda acc, x: acc + 1),
 }
 _STOP = object()
+LEVELS = ('dict', 'limit', 'list')     # steps that return the accumulator they keep for the enclosing Group
 
 
 class GroupRun(object):
     """one evaluation of Group(post) over `items`, as a hand-written loop: every collecting / bucketing / aggregating node of
     the spec owns one accumulator per bucket path, which lives as long as this Group runs and is updated once per item the
-    node gets to see; the Group returns what its spec returned for the last item (for First: the first)"""
-    def __init__(self):
+    node gets to see - wherever the node stands in its chain: a step that follows a {key: ..} level, a Limit or a [..] level
+    in a Pipe is fed once per item of the enclosing Group like any other (the bucket a level sorted the item into is for that
+    level's value spec only); the Group returns what its spec returned for the last item (for First: the first).
+    `stats` (shared with nested runs) records, for the labels, which levels were followed by an accumulating step and how
+    many buckets / items they saw."""
+    def __init__(self, stats=None):
         self.accs = {}
+        self.stats = stats if stats is not None else {'runs': 0, 'keys': {}, 'dicts': {}, 'followed': set(), 'limit-hit': set()}
+        self.stats['runs'] += 1
+        self.rid = self.stats['runs']
 
     def run(self, post, items):
-        ret = {} if post[0] == 'dict' else [] if post[0] == 'list' else None
+        top = post
+        while top[0] == 'limit':      # (a limited dict / list starts out empty, too)
+            top = top[2] or ['list', ['T']]
+        ret = {} if top[0] == 'dict' else [] if top[0] == 'list' else None
         for x in items:
             last, ret = ret, self.ev(post, x, (), ())
             if ret is _STOP:
@@ -762,7 +809,7 @@ class GroupRun(object):
                 # a Group nested in the chain is a complete Group of its own over the value it receives
                 if isinstance(x, (str, bytes, dict)) or not hasattr(x, '__iter__'):
                     raise ValueError('generator: nested Group over %r' % (x,))
-                return GroupRun().run(n[2], list(x))
+                return GroupRun(self.stats).run(n[2], list(x))
             return WRAPSTEPS[n[1]][1](x)
         if k == 'fold':
             # Sum() below an aggregator of the same Group is an ordinary fold of the value it receives
@@ -777,6 +824,8 @@ class GroupRun(object):
             return x
         if k == 'list':
             r = self.ev(n[1], x, path + (0,), bucket)
+            if r is _STOP:
+                raise HarnessBug('generator: STOP below a list level is not modelled: %r' % (n,))
             acc = self.acc(path, bucket, list)
             acc.append(r)
             return acc
@@ -784,10 +833,22 @@ class GroupRun(object):
             key = x
             for i, step in enumerate(n[1]):
                 key = self.ev(step, key, path + ('k', i), bucket)
+            self.stats['keys'].setdefault((self.rid, path, bucket), set()).add(key)
+            self.stats['dicts'].setdefault((self.rid, bucket), set()).add(path)
             r = self.ev(n[2], x, path + ('v',), bucket + (key,))
+            if r is _STOP:
+                raise HarnessBug('generator: STOP below a dict level is not modelled: %r' % (n,))
             acc = self.acc(path, bucket, dict)
             acc[key] = r
             return acc
+        if k == 'limit':
+            # Limit(n, sub): the first n items it gets to see go to sub (default [T]), then it answers STOP
+            key = (path, bucket, 'limit')
+            self.accs[key] = self.accs.get(key, 0) + 1
+            if self.accs[key] > n[1]:
+                self.stats['limit-hit'].add((self.rid, path, bucket))
+                return _STOP
+            return self.ev(n[2] or ['list', ['T']], x, path + ('l',), bucket)
         if k == 'agg':
             key = (path, bucket)
             init, step = AGGS[n[1]][1], AGGS[n[1]][2]
@@ -810,14 +871,23 @@ class GroupRun(object):
         if k == 'pipe':
             cur = x
             for i, step in enumerate(n[1]):
-                cur = self.ev(step, cur, path + (i,), bucket)
+                if step[0] in LEVELS and any(gc_accumulates(later) for later in n[1][i + 1:]):
+                    self.stats['followed'].add((self.rid, path + (i,), bucket, step[0], 'level-then-accumulating-step'))
+                r = self.ev(step, cur, path + (i,), bucket)
+                if r is _STOP:
+                    break             # "halt ... execution of a tuple of subspecs": the chain ends with the value it has
+                cur = r
             return cur
         if k == 'switch':
             for i, (key, val) in enumerate(n[1]):
+                if key[0] in LEVELS and gc_accumulates(val):
+                    self.stats['followed'].add((self.rid, path + (i, 'k'), bucket, key[0], 'level-key-then-accumulating-value'))
                 try:
-                    self.ev(key, x, path + (i, 'k'), bucket)
+                    r = self.ev(key, x, path + (i, 'k'), bucket)
                 except Err:
                     continue
+                if r is _STOP:
+                    raise HarnessBug('generator: STOP from a Switch key is not modelled: %r' % (n,))
                 return self.ev(val, x, path + (i, 'v'), bucket)
             raise Err('MatchError')
         raise ValueError(n)
@@ -841,6 +911,8 @@ def gc_build(n):
         steps = [gc_build(c) for c in n[1]]
         key = T if not steps else steps[0] if len(steps) == 1 else Pipe(*steps)
         return {key: gc_build(n[2])}
+    if k == 'limit':
+        return gg.Limit(n[1]) if n[2] is None else gg.Limit(n[1], gc_build(n[2]))
     if k == 'agg':
         return AGGS[n[1]][0]()
     if k == 'aggsub':
@@ -858,7 +930,7 @@ def gc_build(n):
 def gc_accumulates(n):
     """does evaluating this node update an accumulator of the Group it is (directly) part of"""
     k = n[0]
-    if k in ('list', 'dict', 'agg', 'aggsub'):
+    if k in ('list', 'dict', 'agg', 'aggsub', 'limit'):
         return True
     if k == 'pipe':
         return any(gc_accumulates(c) for c in n[1])
@@ -870,8 +942,8 @@ def gc_accumulates(n):
 def gen_gc_step(draw, kind, d, allow_fail=True):
     """one step whose result depends on its input only; -> (node, output kind)"""
     S_ = st.sampled_from
-    opts = [('plain', nm) for nm, v in sorted(PLAINSTEPS.items()) if kind in v[2]]
-    wraps = [('wrap', nm) for nm, v in sorted(WRAPSTEPS.items()) if kind in v[2] and (allow_fail or nm != 'match-fail')]
+    opts = [('plain', nm) for nm, v in sorted(PLAINSTEPS.items()) if _accepts(v[2], kind)]
+    wraps = [('wrap', nm) for nm, v in sorted(WRAPSTEPS.items()) if _accepts(v[2], kind) and (allow_fail or nm != 'match-fail')]
     opts += wraps + wraps
     if kind == 'ints' and d > 0:
         opts += [('wrap', 'group')] * 4
@@ -902,6 +974,8 @@ def gen_gc_key(draw, kind, d):
                         [['wrap', 'match-row'], ['wrap', 'fill-n']]]))
     if kind == 'ints':
         return draw(S_([[['plain', 'fn-len']], [['wrap', 'auto-sum']], [['wrap', 'group', ['agg', 'max']]], [['wrap', 'group', ['first']]]]))
+    if kind == 'acc':
+        return [['plain', 'fn-len']]
     return None
 
 
@@ -1009,6 +1083,75 @@ def gen_groupchain(draw):
     return {'rows': rows, 'spec': spec}
 
 
+def gen_gc_level(draw):
+    """constructed class (F104): a chain inside Group in which a LEVEL step - {key: ..} bucketing, Limit(n, ..), [..] collecting -
+    is FOLLOWED by steps that accumulate in the same Group: Pipe(.., level, [len | snap | Fill(T) ..], collecting / bucketing /
+    aggregating step), or the level as a Switch key with an accumulating value; the items are the rows, their 'n', or - inside
+    a nested Group - the ints of their 'vals'; at top level / below a bucket / as a list element"""
+    S_ = st.sampled_from
+    src = draw(S_(['row', 'row', 'n', 'n', 'vals']))
+    kind = 'row' if src == 'row' else 'num'
+    what = draw(S_(['dict', 'dict', 'dict', 'dict', 'limit', 'limit', 'list']))
+    if what == 'dict':
+        val, _ = gen_gc_post(draw, kind, draw(S_([0, 0, 1])))
+        level, lkind = ['dict', gen_gc_key(draw, kind, 1), val], 'acc'
+    elif what == 'limit':
+        sub = draw(S_([None, ['list', ['T']], 'dict', 'dict']))
+        if sub == 'dict':
+            val, _ = gen_gc_post(draw, kind, 0)
+            sub = ['dict', gen_gc_key(draw, kind, 1), val]
+        level, lkind = ['limit', draw(S_([1, 2, 3, 5])), sub], 'acc'
+    else:
+        steps, ek = gen_gc_steps(draw, kind, 0, 0, 1, allow_fail=False)
+        level, lkind = ['list', steps[0] if steps else ['T']], 'acc'
+    via = draw(S_(['pipe', 'pipe', 'pipe', 'switch']))
+    # constructed class (F108): a SECOND dict level in the same chain - both levels keep their buckets in the same Group, and
+    # their keys are equal: the same key spec on the same item (Switch key and value), or the number of buckets so far
+    twin = what == 'dict' and draw(S_([True, False, False]))
+    if via == 'switch' and what != 'limit':      # (a Limit key would answer STOP to the Switch: only modelled for chains)
+        # the level is the key of a Switch case: the value sees the item, and accumulates in the enclosing Group
+        post, _ = gen_gc_post(draw, kind, draw(S_([0, 0, 1])))
+        if twin:
+            val2, _ = gen_gc_post(draw, kind, 0)
+            post = ['dict', level[1], val2]
+        chain = [['switch', [[level, post]]]]
+    elif twin:
+        val2, _ = gen_gc_post(draw, 'num', 0)
+        if draw(S_([True, False])):
+            chain = [level, ['dict', [['plain', 'fn-len']], draw(S_([['list', ['T']], ['list', ['plain', 'fn-snap']], ['agg', 'count']]))]]
+        else:
+            chain = [level, ['plain', 'fn-len'], ['dict', draw(S_([[], [['wrap', 'fill-T']]])), val2]]
+    else:
+        mid = draw(S_([[], [], [['plain', 'fn-len']], [['plain', 'fn-len']], [['plain', 'fn-snap']], [['wrap', 'fill-T']], [['wrap', 'auto-T']]]))
+        k2 = 'num' if mid and mid[0][1] == 'fn-len' else lkind
+        post = draw(S_([None, None, ['agg', 'count'], ['list', ['plain', 'fn-snap']]])) if k2 == 'acc' else None
+        if post is None:
+            post, _ = gen_gc_post(draw, k2, draw(S_([0, 0, 1])))
+        chain = [level] + mid + [post]
+    if src == 'row':
+        chain = ['pipe', chain] if len(chain) > 1 else chain[0]
+    elif src == 'n':
+        chain = ['pipe', [['plain', 't-n']] + chain]
+    else:
+        # the whole chain runs inside a nested Group over the ints of 'vals'; the enclosing Group goes on after it
+        inner = ['pipe', chain] if len(chain) > 1 else chain[0]
+        outer, _ = gen_gc_post(draw, 'other', 0)
+        chain = ['pipe', [['plain', 't-vals'], ['wrap', 'group', inner], outer]]
+    around = draw(S_(['top', 'top', 'bucket', 'list']))
+    if around == 'bucket':
+        return ['dict', gen_gc_key(draw, 'row', 1), chain]
+    if around == 'list' and chain[0] != 'dict':
+        return ['list', chain]
+    return chain
+
+
+def gen_grouplevel(draw):
+    S_ = st.sampled_from
+    nrows = draw(S_([1, 2, 3, 3, 4, 4, 5]))
+    rows = [[draw(S_([0, 1, 2])), draw(st.lists(S_(range(5)), min_size=1, max_size=3))] for _ in range(nrows)]
+    return {'rows': rows, 'spec': gen_gc_level(draw)}
+
+
 def gc_chain_classes(n, acc, in_chain_after=None):
     """labels: which mode wrapper is followed, in the same chain, by a step that accumulates in the enclosing Group"""
     k = n[0]
@@ -1055,12 +1198,28 @@ def check_groupchain(recipe, ctx):
     rows = [{'n': n, 'vals': list(vals)} for n, vals in recipe['rows']]
     tree = recipe['spec']
     snap = tg.snapshot(rows)
+    run = GroupRun()
     try:
-        exp = ('ok', GroupRun().run(tree, rows))
+        exp = ('ok', run.run(tree, rows))
     except Err as e:
         exp = ('err', e.cat)
     spec = Group(gc_build(tree))
     classes = gc_chain_classes(tree, set())
+    # levels ({..}, Limit, [..]) that were followed, in their chain, by a step accumulating in the same Group
+    for rid, path, bucket, kind, how in sorted(run.stats['followed'], key=repr):
+        c = '%s-%s' % (kind, how)
+        classes.add(c)
+        if kind == 'dict' and len(run.stats['keys'].get((rid, path, bucket), ())) >= 2:
+            classes.add(c + '/buckets>=2')
+        if kind == 'limit' and (rid, path, bucket) in run.stats['limit-hit']:
+            classes.add(c + '/limit-reached')
+    # two dict levels of one Group run that file their buckets side by side (same run, same enclosing bucket) under equal keys
+    for (rid, bucket), paths in sorted(run.stats['dicts'].items(), key=repr):
+        paths = sorted(paths, key=repr)
+        for i, p1 in enumerate(paths):
+            for p2 in paths[i + 1:]:
+                if run.stats['keys'][(rid, p1, bucket)] & run.stats['keys'][(rid, p2, bucket)]:
+                    classes.add('two-dict-levels-side-by-side/equal-keys')
     many = len(rows) >= 2
     ctx.label('exp-' + exp[0], 'rows-%s' % ('many' if many else len(rows)))
     for c in sorted(classes):
@@ -1087,6 +1246,316 @@ def check_groupchain(recipe, ctx):
     ctx.outcome([repr(spec)[:160], exp if exp[0] == 'err' else repr(exp[1])[:80]])
 
 
+# ---------------------------------------------------------------------------
+# (iv) lazily evaluated sub-specs: a mode wrapper whose result CONTAINS Iter pipelines.  The sub-specs of the pipeline
+# (Iter(sub), .map(sub), .filter(key), .takewhile(key), .unique(key)) are "nested inside" the wrapper, so they are read in the
+# wrapper's mode - although they run only when the iterator is consumed, which is after the wrapper has returned: by a later
+# step of the chain, by a later step of an enclosing Group's chain, or by the caller after glom() has returned.
+# Reference: plain Python generators (map / filter / itertools.takewhile / a seen-set), one read function per mode.
+
+def dbl(x):
+    return x * 2
+
+
+def odd(x):
+    return x % 2
+
+
+class Drained(object):
+    """what an iterator yielded, as opposed to a list that was there from the start"""
+    def __init__(self, items):
+        self.items = items
+
+    def __eq__(self, other):
+        return type(other) is Drained and typed_eq(self.items, other.items)
+
+    def __ne__(self, other):
+        return not self == other
+
+    __hash__ = None
+
+    def __repr__(self):
+        return 'iter(%r)' % (self.items,)
+
+
+def _drain(v):
+    """consume every iterator in a result (in order, depth first)"""
+    if isinstance(v, dict):
+        return dict((k, drain(x)) for k, x in v.items())
+    if isinstance(v, list):
+        return [drain(x) for x in v]
+    if isinstance(v, tuple):
+        return tuple(drain(x) for x in v)
+    if hasattr(v, '__next__'):
+        return Drained([drain(x) for x in v])
+    return v
+
+
+class _Drain(object):
+    """drain() as a chain step: a plain callable (called with the target in Auto and in Group mode) with a stable repr"""
+    __name__ = 'drain'
+
+    def __call__(self, v):
+        return _drain(v)
+
+    def __repr__(self):
+        return 'drain'
+
+
+drain = _Drain()
+
+
+# sub-specs of a pipeline; items are ints.  name -> (build, keeps-ints-in-every-mode)
+LZ_SUBS = {
+    'dbl':        (lambda: dbl, True),                       # a callable: called (Auto, Fill, Group) / a predicate (Match)
+    'odd':        (lambda: odd, True),
+    'T2':         (lambda: T * 2, True),                     # a T expression reads the same in every mode
+    'Tmod':       (lambda: T % 2, True),
+    'auto-dbl':   (lambda: Auto((inc, dbl)), True),          # a wrapper brings its own mode
+    'auto-odd':   (lambda: Auto(odd), True),
+    'match-int':  (lambda: Match(int), True),
+    'fill-pair':  (lambda: Fill((inc, 'a')), False),
+    'str':        (lambda: 'a', False),                      # the four readings of the probe string
+    'tuple':      (lambda: (inc, dbl), False),               # chain / rebuilt tuple / positional pattern / BadSpec
+}
+LZ_NUM = sorted(nm for nm, v in LZ_SUBS.items() if v[1])
+LZ_KEYS_ANY = ['Tmod', 'T2', 'auto-odd']
+LZ_KEYS_CALL = ['odd', 'dbl']
+
+
+def lz_read(name, x, mode):
+    """the value of the sub-spec `name` for the int x, read in `mode`"""
+    if name in ('dbl', 'odd'):
+        v = dbl(x) if name == 'dbl' else odd(x)
+        if mode == 'match':
+            if not v:
+                raise Err('MatchError')
+            return x
+        return v
+    if name == 'T2':
+        return x * 2
+    if name == 'Tmod':
+        return x % 2
+    if name == 'auto-dbl':
+        return (x + 1) * 2
+    if name == 'auto-odd':
+        return x % 2
+    if name == 'match-int':
+        return x
+    if name == 'fill-pair':
+        return (x + 1, 'a')
+    if name == 'str':
+        if mode == 'auto':
+            raise Err('PathAccessError')       # an int has no attribute / item 'a'
+        if mode == 'fill':
+            return 'a'
+        raise Err('MatchError' if mode == 'match' else 'BadSpec')
+    if name == 'tuple':
+        if mode == 'auto':
+            return (x + 1) * 2
+        if mode == 'fill':
+            return (x + 1, x * 2)
+        raise Err('MatchError' if mode == 'match' else 'BadSpec')
+    raise ValueError(name)
+
+
+def lz_ref(row, pipe, mode, count):
+    """the pipeline over `row` as a plain generator; `count` counts the sub-spec readings (all of them happen on consumption)"""
+    def read(name, x):
+        count[0] += 1
+        return lz_read(name, x, mode)
+
+    def source():
+        for x in row:
+            yield x if pipe['sub'] is None else read(pipe['sub'], x)
+
+    def stage(it, op, name):
+        if op == 'map':
+            for x in it:
+                yield read(name, x)
+        elif op == 'filter':
+            for x in it:
+                if read(name, x):
+                    yield x
+        elif op == 'takewhile':
+            for x in it:
+                if not read(name, x):
+                    return
+                yield x
+        elif op == 'unique':
+            seen = set()
+            for x in it:
+                k = read(name, x)
+                if k not in seen:
+                    seen.add(k)
+                    yield x
+        else:
+            raise ValueError(op)
+    it = source()
+    for op, name in pipe['stages']:
+        it = stage(it, op, name)
+    return it
+
+
+def lz_build_pipe(pipe):
+    from glom import Iter
+    it = Iter() if pipe['sub'] is None else Iter(LZ_SUBS[pipe['sub']][0]())
+    for op, name in pipe['stages']:
+        it = getattr(it, op)(LZ_SUBS[name][0]())
+    return it
+
+
+def _first(rows):
+    if not rows:
+        raise Err('PathAccessError')            # T[0] of an empty list
+    return rows[0]
+
+
+# (mode, form) -> (build(IT) -> the wrapper spec, reference(rows, P) -> its result with P(row) for the pipeline over a row)
+def _group_bare(rows, P):
+    last = None
+    for row in rows:
+        last = P(row)
+    return last
+
+
+def _group_bucket(rows, P):
+    out = {}
+    for row in rows:
+        out.setdefault(len(row), []).append(P(row))
+    return out
+
+
+def _group_bucket_bare(rows, P):
+    out = {}
+    for row in rows:
+        out[len(row)] = P(row)
+    return out
+
+
+LZ_FORMS = {
+    # directly below the Group / below a list level: the sub-specs are read from the Group's own accumulator scope
+    ('group', 'bare'):        (lambda IT: Group(IT),                    _group_bare),
+    ('group', 'list'):        (lambda IT: Group([IT]),                  lambda rows, P: [P(r) for r in rows]),
+    ('group', 'list-pipe'):   (lambda IT: Group([Pipe(T, IT)]),         lambda rows, P: [P(r) for r in rows]),
+    ('group', 'pipe'):        (lambda IT: Group(Pipe(IT, T)),           _group_bare),
+    # below a bucket / a Limit
+    ('group', 'bucket'):      (lambda IT: Group({len: [IT]}),           _group_bucket),
+    ('group', 'bucket-bare'): (lambda IT: Group({len: IT}),             _group_bucket_bare),
+    ('group', 'limit'):       (lambda IT: Group(gg.Limit(2, [IT])),     lambda rows, P: [P(r) for r in rows[:2]]),
+    ('auto', 'bare'):         (lambda IT: Auto((T[0], IT)),             lambda rows, P: P(_first(rows))),
+    ('auto', 'list'):         (lambda IT: Auto([IT]),                   lambda rows, P: [P(r) for r in rows]),
+    ('auto', 'dict'):         (lambda IT: Auto({'k': (T[0], IT), 'n': len}), lambda rows, P: {'k': P(_first(rows)), 'n': len(rows)}),
+    ('fill', 'bare'):         (lambda IT: Fill(Pipe(T[0], IT)),         lambda rows, P: P(_first(rows))),
+    ('fill', 'list'):         (lambda IT: Fill([Pipe(T[0], IT), 'lit']), lambda rows, P: [P(_first(rows)), 'lit']),
+    ('fill', 'tuple'):        (lambda IT: Fill((Pipe(T[0], IT), 'lit')), lambda rows, P: (P(_first(rows)), 'lit')),
+    ('fill', 'dict'):         (lambda IT: Fill({'k': Pipe(T[0], IT)}),  lambda rows, P: {'k': P(_first(rows))}),
+    ('match', 'bare'):        (lambda IT: Match(Pipe(T[0], IT)),        lambda rows, P: P(_first(rows))),
+    ('match', 'switch'):      (lambda IT: Match(Switch([(list, Pipe(T[0], IT))])), lambda rows, P: P(_first(rows))),
+}
+LZ_DIRECT = (('group', 'bare'), ('group', 'list'), ('group', 'list-pipe'), ('group', 'pipe'))
+LZ_ENCLOSING = {
+    # an enclosing Group evaluates the wrapper once per item of ITS target; its chain goes on after the wrapper
+    'none':             None,
+    'group-elem':       lambda W: Group([W]),
+    'group-pipe':       lambda W: Group([Pipe(W, T)]),
+    'group-pipe-drain': lambda W: Group([Pipe(W, drain)]),       # consumed by a later step of the enclosing Group's chain
+}
+
+
+def gen_lazywrap(draw):
+    S_ = st.sampled_from
+    mode = draw(S_(['group', 'group', 'group', 'auto', 'fill', 'match']))
+    form = draw(S_(sorted(f for m, f in LZ_FORMS if m == mode)))
+    if mode == 'group' and draw(S_([True, False])):
+        form = draw(S_(['bare', 'list', 'list', 'list-pipe', 'pipe']))      # constructed class: directly below the Group (F97)
+    enclosing = draw(S_(['none', 'none', 'none', 'group-elem', 'group-pipe', 'group-pipe-drain']))
+    consumer = draw(S_(['step', 'step', 'pipe-step', 'caller', 'caller']))
+    keys = LZ_KEYS_ANY + ([] if mode == 'match' else LZ_KEYS_CALL + LZ_KEYS_CALL)   # a callable key in Match mode is a pattern
+    nst = draw(S_([0, 0, 1, 1, 2]))
+    ops = [draw(S_(['map', 'map', 'filter', 'takewhile', 'unique'])) for _ in range(nst)]
+    sub = draw(S_([None] + LZ_NUM + LZ_NUM)) if nst else draw(S_(LZ_NUM))
+    stages = [[op, draw(S_(LZ_NUM + ['dbl', 'odd'] if op == 'map' else keys))] for op in ops]
+    # a reading that leaves the ints (a pair, the probe string, an error) only in the last position of the pipeline
+    if draw(S_([True, False, False])):
+        last = draw(S_(['fill-pair', 'str', 'str', 'tuple', 'tuple']))
+        if not stages:
+            sub = last
+        elif stages[-1][0] == 'map':
+            stages[-1][1] = last
+        else:
+            stages.append(['map', last])
+
+    def rows():
+        return draw(st.lists(st.lists(S_(range(5)), min_size=0, max_size=4), min_size=0, max_size=3))
+    targets = [rows()] if enclosing == 'none' else [rows() for _ in range(draw(S_([1, 2, 2])))]
+    if draw(S_([True, True, False])):
+        targets[-1] = targets[-1] + [[draw(S_(range(1, 5))) for _ in range(draw(S_([1, 2, 3])))]]     # something to evaluate lazily
+    return {'mode': mode, 'form': form, 'pipe': {'sub': sub, 'stages': stages}, 'enclosing': enclosing,
+            'consumer': consumer, 'targets': targets}
+
+
+def check_lazywrap(recipe, ctx):
+    mode, form, pipe = recipe['mode'], recipe['form'], recipe['pipe']
+    enclosing, consumer = recipe['enclosing'], recipe['consumer']
+    build_w, ref_w = LZ_FORMS[(mode, form)]
+    targets = [[list(r) for r in rows] for rows in recipe['targets']]
+    target = targets[0] if enclosing == 'none' else targets
+    snap_before = tg.snapshot(target)
+    count = [0]
+    P = lambda row: lz_ref(row, pipe, mode, count)
+    try:
+        if enclosing == 'none':
+            lazy = ref_w(recipe['targets'][0], P)
+        elif enclosing == 'group-pipe-drain':
+            lazy = [drain(ref_w(rows, P)) for rows in recipe['targets']]
+        else:
+            lazy = [ref_w(rows, P) for rows in recipe['targets']]
+        exp = ('ok', drain(lazy))
+    except Err as e:
+        exp = ('err', e.cat)
+    spec = build_w(lz_build_pipe(pipe))
+    if enclosing != 'none':
+        spec = LZ_ENCLOSING[enclosing](spec)
+    if consumer == 'step':
+        spec = (spec, drain)
+    elif consumer == 'pipe-step':
+        spec = Pipe(spec, drain)
+    direct = (mode, form) in LZ_DIRECT
+    evaluated = count[0] > 0
+    ctx.label('mode-' + mode, 'form-%s-%s' % (mode, form), 'consumer-' + consumer, 'enclosing-' + enclosing, 'exp-' + exp[0])
+    if evaluated:
+        ctx.label('lazily-evaluated', 'lazily-evaluated/mode-' + mode, 'lazily-evaluated/consumer-' + consumer)
+        if enclosing != 'none':
+            ctx.label('lazily-evaluated/enclosing-group')
+        if direct:
+            ctx.label('lazily-evaluated/directly-below-group', 'lazily-evaluated/directly-below-group/consumer-' + consumer)
+            ctx.label('lazily-evaluated/directly-below-group/' + ('enclosing-group' if enclosing != 'none' else 'no-enclosing-group'))
+        elif mode == 'group':
+            ctx.label('lazily-evaluated/below-bucket-or-limit')
+    ctx.nontrivial(evaluated)
+    where = 'drain(glom(%r, %r))' % (target, spec) if consumer == 'caller' else 'glom(%r, %r)' % (target, spec)
+    try:
+        got = glom.glom(target, spec)
+        if consumer == 'caller':
+            got = drain(got)           # the caller consumes the iterators after glom() has returned
+        got = ('ok', got)
+    except GlomError as e:
+        got = ('err', category(e))
+    except Exception as e:
+        got = ('err', 'non-glom:%s: %s' % (type(e).__name__, str(e)[:80]))
+    if exp[0] != got[0]:
+        raise Mismatch('lazy-error-instead-of-value' if exp[0] == 'ok' else 'lazy-missing-error', '%s: expected %r, got %r' % (where, exp, got))
+    if exp[0] == 'err' and exp != got:
+        raise Mismatch('lazy-wrong-error', '%s: expected %r, got %r' % (where, exp, got))
+    if exp[0] == 'ok' and not typed_eq(exp[1], got[1]):
+        raise Mismatch('lazy-value', '%s: expected %r, got %r' % (where, exp[1], got[1]))
+    d = tg.snapshot_diff(snap_before, tg.snapshot(target))
+    if d:
+        raise Mismatch('target-mutated', '%s: %s' % (where, d))
+    ctx.outcome([repr(spec)[:160], exp if exp[0] == 'err' else repr(exp[1])[:80]])
+
+
 SUBS = [
     Sub('modes', check_modes, gen=gen_modes, quick=5000, thorough=20000,
         floors={'wrapper-then-probe': 0.05, 'exp-ok': 0.15, 'exp-err': 0.15, 'star-with-failing-argument': 0.05}),
@@ -1095,6 +1564,17 @@ SUBS = [
                 'nested-group-then-fold-below-aggregator/rows>=2': 0.03, 'auto-then-accumulating-step/rows>=2': 0.03,
                 'fill-then-accumulating-step/rows>=2': 0.05, 'match-then-accumulating-step/rows>=2': 0.025,
                 'exp-ok': 0.5, 'exp-err': 0.015}),
+    Sub('grouplevel', check_groupchain, gen=gen_grouplevel, quick=700, thorough=4000,
+        floors={'dict-level-then-accumulating-step/buckets>=2/rows>=2': 0.14, 'dict-level-key-then-accumulating-value/buckets>=2/rows>=2': 0.02,
+                'limit-level-then-accumulating-step/rows>=2': 0.085, 'limit-level-then-accumulating-step/limit-reached': 0.045,
+                'list-level-then-accumulating-step/rows>=2': 0.025, 'two-dict-levels-side-by-side/equal-keys/rows>=2': 0.11,
+                'exp-ok': 0.5, 'exp-err': 0.012}),
+    Sub('lazywrap', check_lazywrap, gen=gen_lazywrap, quick=1200, thorough=8000,
+        floors={'lazily-evaluated/directly-below-group/no-enclosing-group': 0.09, 'lazily-evaluated/directly-below-group/enclosing-group': 0.095,
+                'lazily-evaluated/directly-below-group/consumer-caller': 0.07, 'lazily-evaluated/directly-below-group/consumer-step': 0.075,
+                'lazily-evaluated/directly-below-group/consumer-pipe-step': 0.022, 'lazily-evaluated/below-bucket-or-limit': 0.045,
+                'lazily-evaluated/mode-auto': 0.055, 'lazily-evaluated/mode-fill': 0.055, 'lazily-evaluated/mode-match': 0.05,
+                'exp-ok': 0.4, 'exp-err': 0.09}),
     Sub('shape', check_shape, gen=gen_shape, quick=4000, thorough=15000, floors={'cyclic': 0.05, 'position-fill': 0.03, 'modal-leaf-in-match-default-ok': 0.025, 'modal-leaf-in-argument': 0.25,
                 'outer-auto': 0.07, 'outer-fill': 0.065, 'outer-match': 0.06, 'outer-group': 0.055, 'exp-err': 0.05}),
 ]
